@@ -1146,10 +1146,7 @@ fn kf_agg2(line: &str) -> Option<&'static str> {
         let hit = keys.slots.iter().any(|(k, valid)| *valid && k.parse::<usize>().ok().and_then(|i| vals.slots.get(i)).map(|v| !v.1).unwrap_or(false));
         return if hit { Some(KF_DICT) } else { None };
     }
-    if t[5] == "ree" && (t[2] == "sum" || t[2] == "sumc") && t[7] != "0" {
-        // sum over a run-end-encoded slice with a non-zero offset
-        return Some(KF_REE_SLICE);
-    }
+    let sliced = t[5] == "ree" && (t[2] == "sum" || t[2] == "sumc") && t[7] != "0";
     if t[5] == "ree" && t[2] == "sumc" {
         // sequential prefix sums all representable, but a run's length or value*length is not
         let (lo, hi) = bounds(&parse_ty(t[3]));
@@ -1168,13 +1165,19 @@ fn kf_agg2(line: &str) -> Option<&'static str> {
             let x: i128 = v.0.parse().unwrap();
             acc += x * n;
             if acc < lo || acc > hi {
-                return None; // the specification errors too
+                return if sliced { Some(KF_REE_SLICE) } else { None }; // the specification errors too
             }
             if n > hi || x * n < lo || x * n > hi {
                 bad = true;
             }
         }
-        return if bad { Some(KF_REE) } else { None };
+        if bad {
+            return Some(KF_REE);
+        }
+    }
+    if sliced {
+        // sum over a run-end-encoded slice with a non-zero offset
+        return Some(KF_REE_SLICE);
     }
     None
 }
